@@ -555,7 +555,7 @@ func (ex *Exec) callFunction(caller *frame, fn *ssa.Function, args []value, env 
 			}
 			ex.initDone[fn.Pkg] = true
 		}
-		if fn.Pkg != nil && strings.HasPrefix(fn.Name(), "verif") && fn.Signature.Recv() == nil {
+		if fn.Pkg != nil && (strings.HasPrefix(fn.Name(), "verif") || strings.HasPrefix(fn.Name(), "strings")) && fn.Signature.Recv() == nil {
 			if r, ok := ex.intrinsic(caller, fn, args, pos); ok {
 				return r
 			}
